@@ -198,12 +198,21 @@ def stop():
 
 # ---------------------------------------------------------------------------------- log -> trace
 
-def to_traces(rec: Recorder, tid0: int = 1, meta: dict | None = None) -> list[dict]:
+def to_traces(rec: Recorder, tid0: int = 1, meta: dict | None = None, merge: bool = False, extra_keys: list | None = None) -> list[dict]:
     """One trace per Network object.  Species -> class ids by real `==` (first representative wins), names ->
-    rank in Python string order; reaction descriptors -> ids in order of first appearance."""
+    rank in Python string order; reaction descriptors -> ids in order of first appearance.
+    merge=True: ONE trace for the whole recording (a command that works on several Network objects in turn): the events of all
+    objects in order, each tagged with the ordinal `obj` of its object.  extra_keys: raw descriptors (see Recorder.rdesc) known to
+    the caller from outside the recording (e.g. the lines of an input file); their ids are returned as trace["extra_ids"]."""
     out = []
-    for n, k in enumerate(rec.order):
-        sl = rec.nets[k]
+    slots = [rec.nets[k] for k in rec.order]
+    if merge:
+        m = {"objs": {}, "ev": []}
+        for n, sl in enumerate(slots):
+            m["objs"].update(sl["objs"])
+            m["ev"] += [dict(e, obj=n + 1) for e in sl["ev"]]
+        slots = [m]
+    for n, sl in enumerate(slots):
         reps: list = []
 
         def cls(s):
@@ -215,9 +224,12 @@ def to_traces(rec: Recorder, tid0: int = 1, meta: dict | None = None) -> list[di
             reps.append(s)
             return len(reps)
         names: set[str] = set()
-        for key in sl["objs"].values():
+        for key in list(sl["objs"].values()) + list(extra_keys or []):
             for nm in key[0] + key[1]:
                 names.add(nm)
+                if nm not in rec.byname:
+                    from naunet.species import Species as _Sp0
+                    rec.byname[nm] = _Sp0(nm)
         rank = {nm: i + 1 for i, nm in enumerate(sorted(names))}
         rid: dict = {}
         R: list[dict] = []
@@ -233,6 +245,8 @@ def to_traces(rec: Recorder, tid0: int = 1, meta: dict | None = None) -> list[di
         evs = []
         for e in sl["ev"]:
             o = {"act": e["act"], "err": e.get("err", "")}
+            if "obj" in e:
+                o["obj"] = e["obj"]
             for f in ("i",):
                 if f in e:
                     o[f] = rix(e[f])
@@ -263,6 +277,8 @@ def to_traces(rec: Recorder, tid0: int = 1, meta: dict | None = None) -> list[di
                 # spec's AddAll re-derive both lists (it only needs the order WITHIN each list, which is preserved)
                 pass
             evs.append(o)
+        extra_ids = [rix(k2) for k2 in (extra_keys or [])]
+        class_of = {nm: cls(nm) for nm in sorted(names)} if extra_keys is not None else {}
         # species attributes per class (after all classes are known), for the append phases of `naunet extend`
         S = []
         k = 0
@@ -278,6 +294,10 @@ def to_traces(rec: Recorder, tid0: int = 1, meta: dict | None = None) -> list[di
             S.append({"surface": bool(sp.is_surface), "neutral": (not sp.is_surface) and sp.charge == 0, "gas": gas})
             k += 1
         tr = {"tid": tid0 + n, "R": R, "S": S, "ev": evs, "classes": [r.name for r in reps]}
+        if extra_keys is not None:
+            tr["extra_ids"] = extra_ids
+            tr["name_rank"] = rank
+            tr["class_of"] = class_of
         if meta:
             tr.update(meta)
         out.append(tr)
